@@ -471,6 +471,9 @@ func (s *Service) redirectToHTTPS(w http.ResponseWriter, r *http.Request) {
 	host, _, err := net.SplitHostPort(r.Host)
 	if err != nil {
 		host = r.Host
+	} else if strings.Contains(host, ":") {
+		// SplitHostPort strips the brackets of an IPv6 literal; a URL needs them.
+		host = "[" + host + "]"
 	}
 
 	url := "https://" + host + r.URL.RequestURI()
